@@ -123,6 +123,9 @@ SNIPPETS = {
                             '@deprecated(Version("pk", 1.5, None, "x"))\ndef j(): pass\n@deprecated(Version("pk", 1, 0, 0), replacement=1)\ndef k(): pass\n@deprecated(Version("a b", -1, 0, 0))\ndef l(): pass\n',
     'inheritance_tables': 'class Base:\n    "doc"\n    def kept(self): "inherited and not overridden"\n    def over(self): "overridden"\n    attr = 1\n    "doc attr"\n    class In: pass\n'
                           'class Mid(Base):\n    def over(self): pass\n    def _priv(self): pass\nclass Leaf(Mid, dict):\n    "doc"\n    def leaf(self): pass\nclass Solo: pass\n',
+    'epytext_repeated_headings': 'def f():\n    """\n    Summary.\n\n    Example\n    =======\n\n    a\n\n    Example\n    =======\n\n    b\n\n    Example\n    =======\n\n    c\n\n    Example\n    =======\n\n    d\n    """\n'
+                                 'class K:\n    """\n    Notes\n    =====\n\n    x\n\n    Notes\n    =====\n\n    y\n\n    Notes\n    =====\n\n    z\n    """\n',
+    'field_without_colon': 'def f(name):\n    """\n    Summary.\n\n    @note ' + 'word ' * 40 + 'and the colon was forgotten\n    @param name ' + 'lorem ipsum ' * 25 + '\n    """\n',
     'constructors_odd': 'from typing import Self\nclass K:\n    def __init__(): pass\nclass N:\n    def __new__(): pass\nclass P:\n    @classmethod\n    def origin() -> "P": pass\n'
                         '    @classmethod\n    def other() -> Self: pass\n    @staticmethod\n    def st() -> "P": pass\n    @classmethod\n    def star(*a, **k) -> "P": pass\n    @classmethod\n    def kwonly(*, a) -> "P": pass\n'
                         'class Q:\n    def __init__(*args): "doc"\n    def __new__(**kw): "doc"\n    @classmethod\n    def make(cls, /) -> "Q": "doc"\n',
